@@ -4,7 +4,7 @@
 \* on the specification itself: Accept(Canon(b)) = b, and every accepted edit is Canon of what it returns.
 EXTENDS Crc32Base32, Json
 CONSTANTS MaxLen, LongLens, Classes
-Reps == {97, 122, 65, 90, 50, 55, 48, 49, 56, 57, 45, 32, 233, 61}
+Reps == {97, 122, 65, 90, 50, 55, 48, 49, 56, 57, 45, 32, 233, 61, 0, 10, 13, 127}
 VARIABLES b, txt, ph
 vars == <<b, txt, ph>>
 Init == b = <<>> /\ txt = <<>> /\ ph = "bytes"
@@ -21,6 +21,8 @@ Edit == ph = "text" /\ ph' = "edit" /\ UNCHANGED b /\
         \/ \E i \in DOMAIN txt : txt' = [txt EXCEPT ![i] = IF @ >= 97 /\ @ <= 122 THEN @ - 32 ELSE @]
         \/ txt' = [i \in DOMAIN txt |-> IF txt[i] >= 97 /\ txt[i] <= 122 THEN txt[i] - 32 ELSE txt[i]]
         \/ txt' = NoDash(txt)
+        \* the byte that differs from the original only in bit 5 (what a case fold by masking confuses), any character
+        \/ \E i \in DOMAIN txt : txt' = [txt EXCEPT ![i] = IF (@ \div 32) % 2 = 1 THEN @ - 32 ELSE @ + 32]
 Next == Grow \/ Long \/ ToText \/ Edit
 Spec == Init /\ [][Next]_vars
 Bijection == ph = "text" => LET a == Accept(txt) IN a.ok /\ a.bytes = b
